@@ -788,6 +788,19 @@ class C16(Base):
 
     def plan(self, rng, tier, idx):
         nmax, _ = self.SIZES[tier]
+        if idx == 0:
+            # the one-unit column is O(n) on both paths: very long tables
+            # (costs beyond 2^31 from n = 65536, beyond 2^32 from 92682)
+            from ..driver import ListDriver
+            ops = [["table", 65539, 1], ["table", 92700, 1]]
+            if tier == "thorough":
+                ops.append(["table", 400001, 1])
+            return ListDriver(ops)
+        if idx == 1 and tier == "thorough":
+            # and one stream pair of that size (about 15 s)
+            cfg = {"cls": "Mixed", "N": 65537 + rng.randint(0, 40),
+                   "p": {"s": 1, "storage": rng.choice(("RAM", "DISK"))}}
+            return C16Driver(cfg, "memo", "tabulated", table=None)
         N = draw_N(rng, nmax, small=max(10, nmax // 6))
         s = draw_units(rng, N, 1 if N > 1 else 0)
         if rng.random() < 0.5:
